@@ -376,8 +376,6 @@ async fn acquire_authority_lock_with_recovery(
     }
 }
 
-#[cfg(not(test))]
-#[allow(dead_code)]
 #[cfg(all(rip_verif, not(test)))]
 pub(crate) async fn verif_acquire_authority_lock_with_recovery(
     client: &Client,
@@ -387,6 +385,8 @@ pub(crate) async fn verif_acquire_authority_lock_with_recovery(
     acquire_authority_lock_with_recovery(client, data_dir, workspace_root).await
 }
 
+#[cfg(not(test))]
+#[allow(dead_code)]
 pub(crate) fn build_app(data_dir: std::path::PathBuf) -> Router {
     build_app_with_workspace_root_and_provider(
         data_dir,
